@@ -79,6 +79,7 @@ func checkC11(p *Prog, r *Report) {
 	}
 	r.Rule("O7", "no value handed out points into live state: the address of a field of a long-lived object (e.g. a running counter) is never returned or stored into another object — data built from such a pointer changes after it was handed out")
 	fieldAddressEscapes(p, r, "O7", nil, "spine")
+	sharedGlobalCells(p, r, "O8")
 	r.Floor("O1", "stores to FunctionData.data", nStores, 2)
 	r.Floor("O2", "loads of FunctionData.data", nLoads, 3)
 	c11Rest(p, r, lsC11)
